@@ -30,6 +30,31 @@ Fixpoint spec_empty (fuel : nat) (t : gtype) (v : gvalue) : bool :=
       end
   end.
 
+(* Is the static type one Fold supports?  (What an interface holds is judged on the value.) *)
+Fixpoint spec_supported (fuel : nat) (t : gtype) : bool :=
+  match fuel with
+  | O => false
+  | S f =>
+      match t with
+      | TBool | TString | TNum _ | TIface => true
+      | TUnsup | TMapK _ => false
+      | TPtr u | TSlice u | TArray _ u | TMap u | TNamed u => spec_supported f u
+      | TStruct fs =>
+          forallb (fun fd => match fd with (name, tag, ft) =>
+             if negb (exported name) then true else
+             let o := snd (parse_tags tag) in
+             if t_squash o && t_omitempty o then false
+             else if t_omit o then true
+             else if t_squash o then
+               match under (snd (base_type ft)) with
+               | TStruct _ | TMap _ => spec_supported f (snd (base_type ft))
+               | TIface => true
+               | _ => false
+               end
+             else spec_supported f ft end) fs
+      end
+  end.
+
 Fixpoint opt_all {A} (l : list (option A)) : option (list A) :=
   match l with
   | [] => Some []
@@ -48,10 +73,11 @@ Fixpoint spec_fold (fuel : nat) (t : gtype) (v : gvalue) : option cvalue :=
            | O => None
            | S g' =>
                match under t, v with
-               | TIface, GNil | TMap _, GNil => Some []
-               | TPtr _, GNil => if inif then None else Some []   (* a typed nil pointer in an interface is no object *)
+               | TMap _, GNil => Some []
+               (* a nil pointer or nil interface reached THROUGH an interface is no object *)
+               | TIface, GNil | TPtr _, GNil => if inif then None else Some []
                | TPtr u, GPtr x => im g' inif u x
-               | TIface, GIface dt dv => im g' true dt dv
+               | TIface, GIface dt dv => if spec_supported fuel dt then im g' true dt dv else None
                | (TStruct _ | TMap _), _ =>
                    match spec_fold f t v with Some (CObj ms) => Some ms | _ => None end
                | _, _ => None
@@ -63,7 +89,7 @@ Fixpoint spec_fold (fuel : nat) (t : gtype) (v : gvalue) : option cvalue :=
       | TNum k, GNum z => Some (spec_num k z)
       | TPtr _, GNil | TIface, GNil => Some CNil
       | TPtr u, GPtr x => spec_fold f u x
-      | TIface, GIface dt dv => spec_fold f dt dv
+      | TIface, GIface dt dv => if spec_supported fuel dt then spec_fold f dt dv else None   (* the dynamic type must be a supported one *)
       | TSlice _, GNil => Some (CArr [])
       | (TSlice u | TArray _ u), GList l =>
           match opt_all (map (spec_fold f u) l) with Some vs => Some (CArr vs) | None => None end
@@ -100,27 +126,3 @@ Fixpoint spec_fold (fuel : nat) (t : gtype) (v : gvalue) : option cvalue :=
       end
   end.
 
-(* Is the static type one Fold supports?  (What an interface holds is judged on the value.) *)
-Fixpoint spec_supported (fuel : nat) (t : gtype) : bool :=
-  match fuel with
-  | O => false
-  | S f =>
-      match t with
-      | TBool | TString | TNum _ | TIface => true
-      | TUnsup | TMapK _ => false
-      | TPtr u | TSlice u | TArray _ u | TMap u | TNamed u => spec_supported f u
-      | TStruct fs =>
-          forallb (fun fd => match fd with (name, tag, ft) =>
-             if negb (exported name) then true else
-             let o := snd (parse_tags tag) in
-             if t_squash o && t_omitempty o then false
-             else if t_omit o then true
-             else if t_squash o then
-               match under (snd (base_type ft)) with
-               | TStruct _ | TMap _ => spec_supported f (snd (base_type ft))
-               | TIface => true
-               | _ => false
-               end
-             else spec_supported f ft end) fs
-      end
-  end.
